@@ -52,6 +52,7 @@ func verifC16Cache() {
 	clock := int64(vUint32()) + 1_000_000 // seconds
 	timeNow = func() time.Time { return time.Unix(clock, 0) }
 	failing := false
+	failKind := vInt(0, 2)
 	version := 0
 	ttlA, ttlB := vUint32(), vUint32()
 	two := vBool()
@@ -66,6 +67,12 @@ func verifC16Cache() {
 		queries++
 		if failing {
 			lastAskOK = false
+			switch failKind { // the upstream fails: no response at all, SERVFAIL, or a response code without a documented error
+			case 1:
+				return &dns.Message{QR: 1, RCode: 2}, nil
+			case 2:
+				return &dns.Message{QR: 1, RCode: 9}, nil
+			}
 			return nil, errVTransport
 		}
 		m := &dns.Message{QR: 1}
